@@ -7,3 +7,5 @@ git -C /repo worktree add --detach -q "$wt" HEAD || exit 3
 ( cd "$wt" && git apply --whitespace=nowarn "$patch" ) || { git -C /repo worktree remove --force "$wt"; exit 3; }
 VERIF_REPO="$wt" python3 /verif/verify.py check "$prop" "$@" 2>&1 | grep -E "^OK|^VIOLATION|^UNDECIDED" | cut -c1-250
 git -C /repo worktree remove --force "$wt"
+tag=$(python3 -c "import hashlib,sys;print(hashlib.sha1(sys.argv[1].encode()).hexdigest())" "$wt")
+rm -rf /verif/.build/alt-${tag:0:8}-* /verif/.build/mod-${tag:0:10}
